@@ -629,6 +629,7 @@ func runC20(c *Ctx) {
 	c.requireInstances("descriptor-tags", 40)
 	// generated-path detection recognises exactly the reserved locations (shared with C04)
 	checkGeneratedRegexp(c)
+	checkErrBranchFails(c, "errors-surface.error-branch-fails", errBranchExceptions, "pkg/model")
 }
 
 // mayCoincide: can two templates produce the same string (segment-wise unification; slots match any text without '/')?
